@@ -65,6 +65,12 @@ def run(tier, replay=None):
             for v in VARIANTS:
                 if i % 2 == 0 or v.startswith("iso"):
                     jobs["t%d-%s" % (i, v)] = ((n, [(a, b, 1) for (a, b) in E], 0, "ties"), toks, v)
+    if not replay:
+        for i in range(150 if tier == "quick" else 2000):
+            n = r.randint(7, 14); E = gnp(r, n, r.uniform(0.6, 0.95))
+            toks = ["%.1f" % (r.randint(1, 9) / 10) for _ in E]
+            for v in VARIANTS:
+                jobs["d%d-%s" % (i, v)] = ((n, [(a, b, 1) for (a, b) in E], 0, "dense-decimal"), toks, v)
     text = ""
     for j, (c, toks, v) in jobs.items():
         text += "case %s exactf d 0 %s\n" % (j, v) + "g %d %d\n" % (c[0], len(c[1])) + "".join("e %d %d %s\n" % (u, w_, t) for (u, w_, _), t in zip(c[1], toks)) + "end\n"
